@@ -79,7 +79,7 @@ func c11Sig(a, b interface{}, coll string) string {
 }
 
 func runC11(r *ev.Run) {
-	r.Rule = "all ordered pairs of the value grid x {binary,nocase,rtrim} x {asc,desc} through db.Search both ways and db.Equals; all triples for transitivity; multi-column keys of every prefix length over a sub-grid; oracle = dense_rank() real SQLite assigns (ORDER BY v COLLATE c) cross-checked with an index on the same column; non-trivial = pairs of the same storage class or int/real (where the order is not decided by the class alone)"
+	r.Rule = "all ordered pairs of the value grid x {binary,nocase,rtrim} x {asc,desc} through db.Search both ways and db.Equals; all triples for transitivity; multi-column keys of every prefix length over a sub-grid x 10 per-column collation vectors (incl. columns with no collation given next to collated ones) x 8 DESC masks; oracle = dense_rank() real SQLite assigns (ORDER BY v COLLATE c) cross-checked with an index on the same column; non-trivial = pairs of the same storage class or int/real (where the order is not decided by the class alone)"
 	grid := c11Grid()
 	n := len(grid)
 	r.Set("grid_values", n)
@@ -271,7 +271,10 @@ func runC11(r *ev.Run) {
 	if r.Thorough() {
 		mg = c11SubGrid(grid, 12)
 	}
-	cols := []ref.KeyCol{{Coll: "binary"}, {Coll: "nocase"}, {Coll: "rtrim"}}
+	// collation of each key column; "" = none given (BINARY), which must not be confused with the collation
+	// of a neighbouring column
+	collVecs := [][3]string{{"binary", "nocase", "rtrim"}, {"nocase", "", "rtrim"}, {"rtrim", "nocase", ""}, {"", "", "nocase"}, {"nocase", "", ""},
+		{"rtrim", "", "nocase"}, {"", "rtrim", ""}, {"nocase", "binary", ""}, {"", "nocase", "binary"}, {"rtrim", "rtrim", ""}}
 	m := len(mg)
 	var recs [][]interface{}
 	for a := 0; a < m; a++ {
@@ -285,10 +288,17 @@ func runC11(r *ev.Run) {
 	ev.Parallel(len(recs), func(ri int) {
 		rec := recs[ri]
 		var cnt int64
-		for dm := 0; dm < 8; dm++ {
-			kc := make([]ref.KeyCol, 3)
+		for dmv := 0; dmv < 8*len(collVecs); dmv++ {
+			dm, cv := dmv%8, collVecs[dmv/8]
+			kc := make([]ref.KeyCol, 3) // for the reference: "" spelled out
+			given := make([]string, 3)  // what the key says
 			for x := 0; x < 3; x++ {
-				kc[x] = ref.KeyCol{Coll: cols[x].Coll, Desc: dm&(1<<uint(x)) != 0}
+				given[x] = cv[x]
+				rc := cv[x]
+				if rc == "" {
+					rc = "binary"
+				}
+				kc[x] = ref.KeyCol{Coll: rc, Desc: dm&(1<<uint(x)) != 0}
 			}
 			for plen := 0; plen <= 3; plen++ {
 				// keys: all prefixes of all records of length plen
@@ -300,7 +310,7 @@ func runC11(r *ev.Run) {
 					kv := recs[ki][:plen]
 					key := make(sdb.Key, plen)
 					for x := 0; x < plen; x++ {
-						key[x] = sdb.KeyCol{V: kv[x], Collate: kc[x].Coll, Desc: kc[x].Desc}
+						key[x] = sdb.KeyCol{V: kv[x], Collate: given[x], Desc: kc[x].Desc}
 					}
 					cnt++
 					w := ref.CompareRecords(kv, rec, kc, plen) // key vs rec in index order
@@ -314,8 +324,8 @@ func runC11(r *ev.Run) {
 								break
 							}
 						}
-						r.Violation(sig, fmt.Sprintf("key %s vs record %s (desc mask %d): Search=%v Equals=%v, reference order %d", RowS(kv), RowS(rec), dm, gs, ge, w),
-							map[string]interface{}{"key": RowS(kv), "rec": RowS(rec), "descmask": dm})
+						r.Violation(sig, fmt.Sprintf("key %s vs record %s (collations %q, desc mask %d): Search=%v Equals=%v, reference order %d", RowS(kv), RowS(rec), given, dm, gs, ge, w),
+							map[string]interface{}{"key": RowS(kv), "rec": RowS(rec), "descmask": dm, "collations": given})
 					}
 				}
 			}
@@ -325,7 +335,7 @@ func runC11(r *ev.Run) {
 		r.Add("multicol_cases", cnt)
 		_ = multi
 	})
-	r.Sample(map[string]interface{}{"multicol_key": RowS(recs[5][:2]), "rec": RowS(recs[9]), "cols": "binary,nocase,rtrim x 8 desc masks"})
+	r.Sample(map[string]interface{}{"multicol_key": RowS(recs[5][:2]), "rec": RowS(recs[9]), "cols": "10 collation vectors over {none given, binary, nocase, rtrim} x 8 desc masks"})
 	r.State(fmt.Sprint(n))
 	for i := range grid {
 		r.State(VS(grid[i]))
